@@ -3,7 +3,7 @@ from __future__ import annotations
 
 import itertools
 
-from vf import core
+from vf import core, simdist
 from vf import kfacrun as K
 from vf import oracles as O
 
@@ -19,13 +19,41 @@ def name_of(cfg):
 
 def case(part, cfg):
     name = name_of(cfg)
+    n = cfg.get('world', 1)
     try:
-        rec, _ = K.run_single(cfg)
         ref = K.reference(cfg)
+        if n == 1:
+            rec, _ = K.run_single(cfg)
+            recs = [(rec, '')]
+        else:
+            # every rank of a simulated world must satisfy the system with
+            # its own gradients and the (all-reduced) factors it holds
+            name += f"/w{n}/gwf={cfg['kfac'].get('grad_worker_fraction')}"
+            recs = []
+            for sname in ('S0-lowest-eager', 'S3-lowest-lazy-poison'):
+                w = simdist.run_world(n, K.make_program(cfg), sname)
+                part.count('executions')
+                bad = list(w.violations) + [
+                    ('exception', f'rank{r}: {e[0]}')
+                    for r, e in enumerate(w.errors)
+                    if e and e[0] != 'SimViolation']
+                if bad:
+                    part.violation(f'sim:{bad[0][0]}', f'{name} [{sname}]: '
+                                   f'{bad[0][1]}', {'cfg': cfg})
+                    return
+                recs += [(w.results[r], f'[{sname}] rank{r}: ')
+                         for r in range(n)]
     except Exception as e:  # noqa
         part.violation(f'exception:{type(e).__name__}:{K.method_of(cfg)}',
                        f'{name}: {e}', {'cfg': cfg})
         return
+    for rec, who in recs:
+        if not _check_rec(part, cfg, name, rec, ref, who):
+            return
+    part.seen('nontrivial', name)
+
+
+def _check_rec(part, cfg, name, rec, ref, who):
     t = -1
     for ev, rv in zip(rec, ref):
         if ev['op'][0] != 'train':
@@ -37,7 +65,7 @@ def case(part, cfg):
         if min(torch.linalg.eigvalsh(f[k].double()).min().item()
                for f in ev['factors'].values() for k in 'AG') < -1e-3:
             part.count('steps_with_indefinite_factor')
-        vs = O.system_residual(cfg, ev, rv, stats=part)
+        vs = O.system_residual(cfg, ev, rv, who=who, stats=part)
         if ev['steps_after'] != t + 1:
             vs.append(('steps', f'steps={ev["steps_after"]} after {t + 1} '
                        'steps'))
@@ -47,10 +75,10 @@ def case(part, cfg):
                 f"{kinds}:{K.method_of(cfg)}:{cfg['model']}:{cfg['dtype']}",
                 f'{name} step {t}: {vs[0][1]}',
                 {'cfg': cfg, 'step': t, 'all': [x for _, x in vs[:6]]})
-            return
+            return False
         if rv['nu'] < 1:
             part.seen('clip_active', name)
-    part.seen('nontrivial', name)
+    return True
 
 
 def configs(thorough, seed):
@@ -106,13 +134,28 @@ def configs(thorough, seed):
                  compute_eigenvalue_outer_product=pre)
         out.append({'model': model, 'dtype': 'f32', 'batch': 2, 'world': 1,
                     'seed': seed, 'kfac': k, 'history': [['train']] * 4})
+    # simulated worlds: ranks that RECEIVE second-order data or gradients
+    # must satisfy the system as well, on every step
+    for world, strat in ((2, 'COMM_OPT'), (2, 'MEM_OPT'), (4, 'COMM_OPT'),
+                         (4, 'HYBRID_OPT'), (4, 'MEM_OPT')):
+        for model, (m, pre), kl in itertools.product(
+                ['mlp3', 'conv'], methods, (1e-3, 1e30)):
+            if world == 4 and not thorough and model == 'conv' and kl > 1:
+                continue
+            k = dict(damping=0.05, factor_decay=0.5, kl_clip=kl, lr=0.1,
+                     compute_method=m, compute_eigenvalue_outer_product=pre,
+                     grad_worker_fraction=strat)
+            out.append({'model': model, 'dtype': 'f32', 'batch': 2,
+                        'world': world, 'seed': seed, 'kfac': k,
+                        'history': [['train']] * 3})
     return out
 
 
 def main(run: core.Run):
     thorough = run.tier == 'thorough'
     cfgs = configs(thorough, run.seed)
-    core.pmap(run, case, cfgs, weight=lambda c: len(c['history']))
+    core.pmap(run, case, cfgs,
+              weight=lambda c: len(c['history']) * c['world'] ** 2 * 2)
     run.c['states'] = run.c.get('evaluations', 0)
     run.c['transitions'] = run.c.get('evaluations', 0)
     run.c['distinct_nontrivial'] = len(run.distinct.get('nontrivial', ()))
@@ -125,7 +168,9 @@ def main(run: core.Run):
         'x {inverse, eigen, eigen+prediv} x damping {1e-2..10} x decay '
         '{0.5,0.95,1} x dtype triples x clipping active/inactive, every step '
         'of a multi-step run with both intervals 1; plus rank-deficient / '
-        'bf16-factor long runs and step-dependent damping; after each step '
+        'bf16-factor long runs and step-dependent damping; plus simulated '
+        'worlds 2 and 4 under every strategy (two fixed schedules, every '
+        'rank checked); after each step '
         'the gradient divided by nu must satisfy the defining system built '
         'from the state_dict factors in float64 (relative residual <= '
         '30*eps*(1+kappa)); evaluations = steps checked; non-trivial = '
